@@ -162,6 +162,20 @@ def scenarios(tier, seed):
             for base in LATS:
                 cfg = {'seed': sd, 'base_lat': base, 'lat_grid': [base] + [x for x in LATS if x != base], 'wake_grid': [50e-6, 1e-3, 5e-3]}
                 out.append(({'cfg': cfg, 'ops': [dict(op)]}, 1 if quick or base != 1e-3 else 2))
+    # (4) a blocking driver: every send call of either stack takes 0.3 / 3 / 15 ms (longer than a bus round trip), so replies are
+    #     handled by the receive thread while the application thread that triggered them is still inside its send call
+    for sd in (None, 0xA55A):
+        for cost in (0.3e-3, 3e-3, 15e-3):
+            for base in (0.2e-3, 1e-3):
+                for n in (1, 7, 8, 9):
+                    for first in (rd(0x1000, n), wr(0x1000, n)):
+                        for second in (rd(0x1000, 4), wr(0x1000, 9)):
+                            for (rxt, vis) in ((False, 1.0), (True, 1.0), (True, 0.0)):
+                                # rx_threads: frames are handled on a controlled receive thread per stack, so a send call made
+                                # by a handler blocks that thread only; send_visible 0: the frame is on the bus at once and the
+                                # call returns after the cost (a driver that waits for the transmit confirmation)
+                                out.append(({'cfg': {'seed': sd, 'base_lat': base, 'send_cost': cost, 'rx_threads': rxt, 'send_visible': vis},
+                                             'ops': [dict(first), dict(second)]}, 0))
     return out
 
 
